@@ -5,6 +5,8 @@
 package main
 
 import (
+	"io"
+	"os/exec"
 	"unsafe"
 	"verifharness/core"
 
@@ -48,6 +50,42 @@ func main() {
 	case "exit":
 		k, _ := strconv.Atoi(os.Args[2])
 		os.Exit(k)
+	case "stdin-probe":
+		// reads the standard input to its end - for at most 1.5 s - and says what it got
+		type got struct {
+			n   int
+			eof bool
+		}
+		ch := make(chan got, 1)
+		go func() {
+			b, err := io.ReadAll(os.Stdin)
+			ch <- got{len(b), err == nil}
+		}()
+		select {
+		case g := <-ch:
+			fmt.Printf("stdin: %d bytes, end of input: %v\n", g.n, g.eof)
+		case <-time.After(1500 * time.Millisecond):
+			fmt.Printf("stdin: still open after 1.5 s (no end of input)\n")
+		}
+	case "leave-descendant":
+		// prints a line, starts a process that keeps the inherited output streams open for a while
+		// (and writes to them late), and exits 0 at once - a build script with a background job
+		fmt.Println("parent done")
+		ms := "1500"
+		if len(os.Args) > 2 {
+			ms = os.Args[2]
+		}
+		cmd := exec.Command(os.Args[0], "late-writer", ms)
+		cmd.Stdout, cmd.Stderr = os.Stdout, os.Stderr
+		cmd.SysProcAttr = &syscall.SysProcAttr{Setsid: true}
+		if err := cmd.Start(); err != nil {
+			os.Exit(70)
+		}
+		os.Exit(0)
+	case "late-writer":
+		ms, _ := strconv.Atoi(os.Args[2])
+		time.Sleep(time.Duration(ms) * time.Millisecond)
+		fmt.Println("descendant done")
 	default:
 		os.Exit(64)
 	}
